@@ -57,6 +57,21 @@ func keyEmuScenarios(big, withMapping bool) []*Desc {
 		if withMapping {
 			d.Name = "keyemu-map-" + variant
 			d.Mappings = append(d.Mappings, MapDesc{Name: "M1", Keys: km{K1: {61, 0}}})
+			// a third mapping emulates keys with the SAME axis, but with other notes and with the opposite choice of
+			// directions (a direction that has a note in M0 has none here and vice versa): what was started under one
+			// mapping must still be released when the stick returns under the other
+			m2 := MapDesc{Name: "M2", Keys: km{K1: {62, 0}}}
+			for _, a := range ax {
+				b := a
+				b.Note = a.Note + 7
+				if a.NoteNeg >= 0 {
+					b.NoteNeg = -1
+				} else {
+					b.NoteNeg = a.Note - 7
+				}
+				m2.Axes = append(m2.Axes, b)
+			}
+			d.Mappings = append(d.Mappings, m2)
 			acts(d, MU, "mapping_up", MD, "mapping_down", OU, "octave_up", PA, "panic", LE, "cc_learning")
 			d.OctLo, d.OctHi = 0, 1
 		} else {
@@ -119,7 +134,13 @@ func ccScenarios(big bool) []*Desc {
 		SubAxes: map[string][]AxisDesc{"Touchpad": {{Name: "ABS_RX", Type: "cc", CC: 22, CCNeg: 23, Off: 1, OffNeg: 1, Min: -128, Max: 127, Deadzone: 0.1, Pos: subPos}}},
 	}}
 	acts(d3, LE, "cc_learning")
-	return []*Desc{d, d2, d3}
+	// CC-learning switched by an axis (a hat bound to the action) instead of a key
+	d4 := base("bidir-cc-learning-by-axis", "interrupt")
+	d4.Mappings = []MapDesc{{Name: "M0", Keys: km{K1: {60, 0}}, Axes: []AxisDesc{
+		{Name: "ABS_X", Type: "cc", CC: 1, CCNeg: 2, Off: 0, OffNeg: 1, Min: -128, Max: 127, Deadzone: 0.1, Pos: []int32{-128, -64, -12, 0, 12, 64, 127}},
+		{Name: "ABS_HAT0Y", Type: "action", Action: "cc_learning", Min: -1, Max: 1, Deadzone: 0, Pos: []int32{-1, 0, 1}},
+	}}}
+	return []*Desc{d, d2, d3, d4}
 }
 
 // ---------------------------------------------------------------- C08 monitor
